@@ -224,7 +224,12 @@ pub fn battery<T: Subject + AllPairs>(ctx: &mut Ctx, x: &T, model: &[bool], full
         });
         b.d("leading_ones", |y| y.leading_ones());
         b.d("trailing_ones", |y| y.trailing_ones());
-        b.d("fmt matrix", |y| model::fmt_all(y));
+        if n <= 600 {
+            b.d("fmt matrix", |y| model::fmt_all(y));
+        } else {
+            // decimal formatting is quadratic (repeated division by ten): for long vectors only the power-of-two radixes
+            b.d("fmt matrix (no decimal)", |y| model::fmt_nodec(y));
+        }
         b.d("hash stream", |y| hash_stream(y));
         b.d("DefaultHasher", |y| default_hash(y));
         b.d("twin.cmp(y)", |y| twin.cmp(y));
@@ -238,7 +243,7 @@ pub fn battery<T: Subject + AllPairs>(ctx: &mut Ctx, x: &T, model: &[bool], full
         b.d("Bv::from(&y)", |y| <T as Pair<Bv>>::conv_ref(y).map(|c| basic(&c)));
         b.d("Bvf<u64,3>::try_from(&y)", |y| <T as Pair<T9>>::conv_ref(y).map(|c| basic(&c)));
         b.d("Bvf<u8,3>::try_from(&y)", |y| <T as Pair<T2>>::conv_ref(y).map(|c| basic(&c)));
-        b.d("Bvf<u128,2>::try_from(&y)", |y| <T as Pair<T11>>::conv_ref(y).map(|c| basic(&c)));
+        b.d("Bvf<u128,3>::try_from(&y)", |y| <T as Pair<T11>>::conv_ref(y).map(|c| basic(&c)));
         b.d("Bvd::from(y)", |y| <T as Pair<Bvd>>::conv_val(y.clone()).map(|r| r.map(|c| basic(&c))));
         b.d("Bv::from(y)", |y| <T as Pair<Bv>>::conv_val(y.clone()).map(|r| r.map(|c| basic(&c))));
         // mixed-type comparisons against fresh vectors of the other implementations
